@@ -147,6 +147,9 @@ struct Shared
     volatile int cur_valid;
     int nskip;
     struct { Slot s; int sig; } skip[32];
+    // coarse position of an enumeration harness (grid engine): a string literal (same address in parent and child) and four numbers
+    const char *volatile mark_sig;
+    volatile uint64_t mark_v[4];
 };
 inline Shared *&shared()
 {
@@ -177,6 +180,17 @@ inline void tick()
 inline void leave()
 {
     if (shared()) { shared()->cur_valid = 0; }
+}
+// enumeration harnesses call this at the head of every coarse unit of work (a matrix, a filter order pair, a function on one lattice
+// row ...).  If the child is then killed inside the library (SIGSEGV, an ASan / UBSan abort, a hang), the parent reports a violation
+// that names the unit instead of a harness error.  `sig` must be a string literal.
+inline void mark(const char *sig, uint64_t a = 0, uint64_t b = 0, uint64_t c = 0, uint64_t d = 0)
+{
+    Shared *sh = shared();
+    if (!sh) { return; }
+    sh->mark_v[0] = a; sh->mark_v[1] = b; sh->mark_v[2] = c; sh->mark_v[3] = d;
+    sh->mark_sig = sig;
+    ++sh->progress;
 }
 inline std::string signame(int s)
 {
@@ -227,6 +241,16 @@ inline int run_contained(const std::function<void()> &body, double hang_s = 20.0
         }
         if (!hung && WIFEXITED(status) && WEXITSTATUS(status) == 0) { return 0; }
         int sig = hung ? -1 : (WIFSIGNALED(status) ? WTERMSIG(status) : 1000 + WEXITSTATUS(status));
+        if (!sh->cur_valid && sh->mark_sig)
+        {
+            // an enumeration harness died inside a marked unit of work: that is a finding about the code under test
+            std::string where = std::string(sh->mark_sig) + " [" + std::to_string(sh->mark_v[0]) + "," + std::to_string(sh->mark_v[1]) + "," + std::to_string(sh->mark_v[2]) + "," + std::to_string(sh->mark_v[3]) + "]";
+            std::string how = hung ? "made no progress (hang)" : "killed the process (" + signame(sig > 999 ? 0 : sig) + ", status " + std::to_string(sig) + ": a crash or a sanitizer abort inside the library)";
+            viol(std::string("crash|") + sh->mark_sig, "the unit of work " + where + " " + how + "; the enumeration stops here", "{\"unit\":" + jstr(where) + "}");
+            book().flush_counts();
+            done(false, "stopped at the first crash");
+            return 0;
+        }
         if (!sh->cur_valid || sh->nskip >= 32)
         {
             fprintf(stderr, "vx: child died outside a published transition (status %d)\n", sig);
